@@ -119,6 +119,10 @@ PROPS["C02"] = dict(
         # the SSE kernels (static build and the dispatcher's SSE arm) under ASan
         dict(name="asan-wsm-fill-22", src="parse_harness.cpp", cfg="asan-wsm", args=["--prop", "C02"], env=fill_env(0x22)),
         dict(name="asan-dyn-nohsw-fill-5d", src="parse_harness.cpp", cfg="asan-dyn+SONIC_VERIF_DISPATCH_NO_HASWELL", args=["--prop", "C02"], env=fill_env(0x5d)),
+        # production builds (code paths that are compiled out under sanitizers): the ledger allocator wraps every block in
+        # guard zones there, so writes past a node or string block are observed without ASan
+        dict(name="prod-hsw-ledger", src="parse_harness.cpp", cfg="prod-hsw", args=["--prop", "C02", "--streams", "reuse_histories_track,reuse_histories_simple,adaptive_pool_growth,user_buffer_pool", "--scale", "4"], env={}),
+        dict(name="prod-dyn-ledger", src="parse_harness.cpp", cfg="prod-dyn", args=["--prop", "C02", "--streams", "reuse_histories_track,reuse_histories_simple", "--scale", "2"], env={}),
     ],
     require=["adaptive-pool:small-start-meets-large-text", "c02:histories", "c02:followups-after-failed-parse", "c02:ledger-quiescent-checks", "rejected", "accepted",
              "c02:parses-on-user-buffer-pool", "c02:user-buffer-misaligned"],
@@ -375,7 +379,7 @@ PROPS["C12"] = dict(
         dict(name="prod-hsw", src="mutation_harness.cpp", cfg="prod-hsw", env={}, args=["--prop", "C12"]),
         dict(name="prod-wsm", src="mutation_harness.cpp", cfg="prod-wsm", env={}, args=["--prop", "C12"]),
     ],
-    require=["histories-on-a-small-chunk-pool(64..1024 bytes)", "operations-checked", "op:CreateMap", "op:DestroyMap", "op:RemoveMember(tail)-while-map-exists", "op:erase-full-or-empty-range",
+    require=["histories-on-a-small-chunk-pool(64..1024 bytes)", "op:argument-aliases-the-target(own element / own value / own bytes)", "operations-checked", "op:CreateMap", "op:DestroyMap", "op:RemoveMember(tail)-while-map-exists", "op:erase-full-or-empty-range",
              "op:growth-from-capacity-0", "op:move-assign-from-own-subnode", "op:Swap-with-own-subnode", "op:CopyFrom",
              "histories-with-duplicate-keys(no-map)", "lookups-checked", "op:reserve-below-size", "op:Clear-then-reuse", "AtPointer-checked",
              "histories-starting-from-a-parsed-document"],
@@ -395,6 +399,9 @@ PROPS["C13"] = dict(
     runs=[
         dict(name="asan-hsw", src="mutation_harness.cpp", cfg="asan-hsw", env=ASAN_ENV, args=["--prop", "C13"]),
         # ParseSchema histories (valid texts, 1..4 applications, Swap/move hand-over, destruction) on the ledger allocator
+        dict(name="prod-hsw", src="mutation_harness.cpp", cfg="prod-hsw", env={}, args=["--prop", "C13"]),
+        dict(name="schema-ledger-prod", src="schema_harness.cpp", cfg="prod-hsw", env={},
+             args=["--prop", "C13", "--streams", "kind_matrix_ledger,generated_pairs_ledger,invalid_text_ledger"]),
         dict(name="schema-ledger", src="schema_harness.cpp", cfg="asan-hsw", env=ASAN_ENV,
              args=["--prop", "C13", "--streams", "kind_matrix_ledger,generated_pairs_ledger,invalid_text_pool,invalid_text_ledger"]),
     ],
